@@ -103,6 +103,11 @@ class LQueue(_sched.SQueue):
             raise
         self.instr.ev('q.put', self.name, _entry_id(item), _entry_req(item))
 
+    def empty(self):
+        r = super().empty()
+        self.instr.ev('q.empty', self.name, r)
+        return r
+
     def get(self, block=True, timeout=None):
         try:
             item = super().get(block, timeout)
@@ -112,6 +117,34 @@ class LQueue(_sched.SQueue):
             raise
         self.instr.ev('q.get', self.name, _entry_id(item), bool(block))
         return item
+
+
+class LHandle:
+    """wraps what `mkthread` returns: `join` is written to the effect log when it returns"""
+
+    def __init__(self, instr, inner):
+        self.instr = instr
+        self.inner = inner
+        self.name = inner.name
+
+    def join(self, timeout=None):
+        r = self.inner.join(timeout)
+        self.instr.ev('th.join', self.name)
+        return r
+
+    def is_alive(self):
+        return self.inner.is_alive()
+
+    def __eq__(self, other):
+        if isinstance(other, LHandle):
+            other = other.inner
+        return self.inner == other
+
+    def __ne__(self, other):
+        return not self.__eq__(other)
+
+    def __hash__(self):
+        return hash(self.inner)
 
 
 class LQueueModule:
